@@ -1,21 +1,28 @@
-/* C13 (a): ONE arrival decided by the real static push_evt() of ctx.c, with the real call_pubsub_cb (ps.c), new_evt /
- * evt_dtor (evts.c), queue.c, stack.c, mem.c.  Stubs: m_ctx() (not called on this path), fetch_ms (clock).
+/* C13 (a): NARR (1 or 2) consecutive arrivals decided by the real static push_evt() of ctx.c on the real queue.c /
+ * mem.c / evts.c (new_evt, evt_dtor).  Stubs: m_ctx() (not called on this path), fetch_ms (clock).
  * Pre-state: K events already accumulated for the module (K is a per-job constant: the number of heap blocks must be
  * concrete, L1_NOTES), shaped like direct-tell messages (no source block); batch size `len` over the full size_t,
  * batch timeout `ns` over the full u64, token bucket fields arbitrary.
- * The arriving event: source flags word symbolic (priority bits in the combinations the registration code can
- * produce: LOW, NORM, HIGH, NORM|HIGH for descriptors; INTERNAL bit; every other bit free), source user pointer
- * among { &mod->batch (the batch timer), &mod->tb (token bucket refill timer), anything else }, or no source at all
- * (direct tell / broadcast: process_ps leaves evt->src NULL; "default if unspecified" = normal priority, mod.md).
- * Oracle = decision table written from the property text:
+ * Two flavours (measured: with everything symbolic AND the real destruction of the delivered queue one job needs
+ * 18 M SAT variables / 16 GB, because after the first symbolic enqueue-or-release branch every m_mem_unref fans out):
+ *  - decision jobs (-DVF_RECORDER, Job(remove=["call_pubsub_cb"])): every arriving event is fully symbolic - source
+ *    flags word (priority bits in the combinations the registration code can produce: LOW, NORM, HIGH, NORM|HIGH for
+ *    descriptors; INTERNAL bit; every other bit free), source user pointer among { &mod->batch (the batch timer),
+ *    &mod->tb (token bucket refill timer), anything else }, or no source at all (direct tell / broadcast: process_ps
+ *    leaves evt->src NULL; "default if unspecified" = normal priority, docs/concepts/mod.md).  call_pubsub_cb is
+ *    replaced by a recorder that runs the recording handler on a non-empty queue and keeps the queue.
+ *  - delivery jobs (-DVF_CLASS=c [-DVF_CLASS2=c2]): the class of each arrival is a per-job constant (0 LOW, 1 NORM,
+ *    2 HIGH, 3 descriptor = NORM|HIGH, 4 tell, 5 batch timer tick, 6 token bucket tick), everything else symbolic, and
+ *    the REAL call_pubsub_cb (ps.c) hands the queue to the recording handler and destroys it with the real evt_dtor.
+ * Oracle = decision table written from the property text, applied to a model of the pending events:
  *   trigger  <=>  high priority arrival
  *              |  normal priority arrival and (a batch size is configured and count >= size
  *                                              |  neither batch size nor batch timeout configured)
  *              |  the batch timer expired and something is pending
- *   trigger  => exactly one invocation with all accumulated events (+ the arriving one unless it is a library timer
- *               tick) in arrival order, nothing left behind;
+ *   trigger  => exactly one invocation with all pending events (+ the arriving one unless it is a library timer tick)
+ *               in arrival order, nothing left behind;
  *   !trigger => no invocation, the arriving event retained behind the older ones (order kept);
- *   library timer ticks are never handed to the user. */
+ *   library timer ticks are never handed to the user; over the whole run nothing is delivered twice or lost. */
 #include "l1.h"
 #ifdef VF_NATIVE
 #define m_ctx vf_real_m_ctx       /* ctx.c's own m_ctx() is not what the harness wants: keep it under another name */
@@ -28,93 +35,138 @@
 #ifndef K
 #define K 1
 #endif
-#define KA (K + 1)
+#ifdef VF_CLASS2
+#define NARR 2
+#elif !defined(NARR)
+#define NARR 1
+#endif
+#define NID (K + NARR)
 m_ctx_t *vf_the_ctx;
 m_ctx_t *m_ctx(void) { return vf_the_ctx; }
 void fetch_ms(uint64_t *val, uint64_t *ctr) { *val = nondet_u64(); if (ctr) (*ctr)++; }
 void VF_PUSH_EVT(m_mod_t *mod, evt_priv_t *evt);   /* = static push_evt() of ctx.c */
 void VF_EVT_DTOR(void *);                          /* = static evt_dtor() of evts.c */
 
-static evt_priv_t *pre[KA], *nw;
-static int calls, nseen, seen[KA + 2];
+static void *ident[NID + 1];                       /* ident[i] = block of event i (arrival order); NULL = a library tick */
+static int calls, nseen, seen[NID + 2];
 void on_evt(m_mod_t *m, const m_queue_t *const q) {
     calls++;
     m_itr_foreach(q, {
         void *e = m_itr_get(m_itr);
         int id = -1;
-        for (int i = 0; i < K; i++) if (e == (void *)pre[i]) id = i;
-        if (e == (void *)nw) id = K;
-        if (nseen < KA + 2) seen[nseen] = id;
+        for (int i = 0; i < NID; i++) if (e != NULL && e == ident[i]) id = i;
+        if (nseen < NID + 2) seen[nseen] = id;
         nseen++;
     });
 }
+#if defined(VF_RECORDER) && !defined(VF_NATIVE)
+/* stands for ps.c:call_pubsub_cb: nothing is invoked for an empty queue, otherwise the current handler gets it */
+void call_pubsub_cb(m_mod_t *mod, m_queue_t *evts) {
+    if (m_queue_len(evts) == 0) return;
+    on_evt(mod, evts);
+}
+#endif
 
 static char other_user;
+static size_t len;
+static uint64_t ns;
+/* model: ids pending (accumulated, not yet handed over), ids expected to have been handed over so far */
+static int pend[NID + 1], npend, expd[NID + 1], nexp, exp_calls;
+static _Bool in_sync = 1;                          /* cleared once a wrong decision has been reported */
+
+/* one arrival; cls >= 0: class fixed (a constant at every call site), cls < 0: symbolic */
+static inline void arrive(m_mod_t *mod, int a, int cls) {
+    if (!in_sync) return;
+    ev_src_t *src = m_mem_new(sizeof(ev_src_t), NULL); VF_ASSUME(src != NULL);
+    src->type = M_SRC_TYPE_TMR;
+    src->mod = mod;
+    unsigned f; unsigned char which; _Bool tell;
+    if (cls >= 0) {
+        f = cls == 0 ? M_SRC_PRIO_LOW : cls == 1 || cls == 4 ? M_SRC_PRIO_NORM : cls == 2 ? M_SRC_PRIO_HIGH :
+            cls == 3 ? (M_SRC_PRIO_NORM | M_SRC_PRIO_HIGH)        /* create_src() ORs HIGH into a descriptor source */
+                     : (M_SRC_INTERNAL | M_SRC_PRIO_HIGH);         /* as evts.c / mod.c register their timers */
+        which = cls == 5 ? 0 : cls == 6 ? 1 : 2;
+        tell = cls == 4;
+    } else {
+        f = nondet_uint();
+        unsigned prio = f & M_SRC_PRIO_MASK;
+        VF_ASSUME(prio == M_SRC_PRIO_LOW || prio == M_SRC_PRIO_NORM || prio == M_SRC_PRIO_HIGH ||
+                  prio == (M_SRC_PRIO_NORM | M_SRC_PRIO_HIGH));
+        which = nondet_uchar(); VF_ASSUME(which < 3);
+        tell = nondet_bool();
+    }
+    src->flags = (m_src_flags)f;
+    if (which == 0) src->userptr = &mod->batch; else if (which == 1) src->userptr = &mod->tb; else src->userptr = &other_user;
+    evt_priv_t *nw = new_evt(src); VF_ASSUME(nw != NULL);
+    if (tell) {                                       /* what process_ps does for a direct tell: the subscription is NULL */
+        m_mem_unref(nw->src);
+        nw->src = NULL;
+    }
+    _Bool internal = !tell && (f & M_SRC_INTERNAL);
+    ident[K + a] = internal ? NULL : (void *)nw;
+
+    VF_PUSH_EVT(mod, nw);                             /* the loop hands its reference over */
+
+    _Bool trigger;
+    if (internal) trigger = which == 0 && npend > 0;  /* batch timeout expired with events pending */
+    else {
+        pend[npend++] = K + a;
+        if (!tell && (f & M_SRC_PRIO_HIGH)) trigger = 1;
+        else if (!tell && (f & M_SRC_PRIO_LOW)) trigger = 0;
+        else trigger = len != 0 ? (size_t)npend >= len : ns == 0;   /* normal priority */
+    }
+    if (trigger) {
+        for (int i = 0; i < NID; i++) if (i < npend) expd[nexp++] = pend[i];
+        npend = 0;
+        exp_calls++;
+    }
+    VF_CHECK(calls == exp_calls, "handler invoked exactly when a trigger of the property holds (once)");
+    if (calls != exp_calls) { in_sync = 0; return; }  /* already reported: the model no longer describes the run */
+    VF_CHECK(nseen == nexp, "an invocation carries every pending event, none twice, no library timer tick");
+    VF_CHECK(m_queue_len(mod->batch.events) == npend, "retained without an invocation, nothing left behind after one");
+}
 
 int vf_main(void) {
     vf_the_ctx = vf_l1_ctx();
     m_mod_t *mod = vf_l1_mod(vf_the_ctx, on_evt);
     mod->state = M_MOD_RUNNING;                       /* events only arrive for a RUNNING module */
-    size_t len = nondet_size_t();
-    uint64_t ns = nondet_u64();
+    len = nondet_size_t();
+    ns = nondet_u64();
     mod->batch.len = len;
     mod->batch.timer.ns = ns;
     mod->tb.burst = nondet_u64();
     mod->tb.tokens = nondet_u64();
 
     for (int i = 0; i < K; i++) {
-        pre[i] = m_mem_new(sizeof(evt_priv_t), VF_EVT_DTOR); VF_ASSUME(pre[i] != NULL);
-        pre[i]->evt.type = M_SRC_TYPE_PS;
-        int r = m_queue_enqueue(mod->batch.events, pre[i]); VF_ASSUME(r == 0);
+        evt_priv_t *e = m_mem_new(sizeof(evt_priv_t), VF_EVT_DTOR); VF_ASSUME(e != NULL);
+        e->evt.type = M_SRC_TYPE_PS;
+        int r = m_queue_enqueue(mod->batch.events, e); VF_ASSUME(r == 0);
+        ident[i] = e;
+        pend[npend++] = i;
     }
 
-    ev_src_t *src = m_mem_new(sizeof(ev_src_t), NULL); VF_ASSUME(src != NULL);
-    src->type = M_SRC_TYPE_TMR;
-    unsigned f = nondet_uint();
-    unsigned prio = f & M_SRC_PRIO_MASK;
-    VF_ASSUME(prio == M_SRC_PRIO_LOW || prio == M_SRC_PRIO_NORM || prio == M_SRC_PRIO_HIGH ||
-              prio == (M_SRC_PRIO_NORM | M_SRC_PRIO_HIGH));
-    src->flags = (m_src_flags)f;
-    VF_PICK(which, 3);
-    src->userptr = which == 0 ? (const void *)&mod->batch : which == 1 ? (const void *)&mod->tb : (const void *)&other_user;
-    src->mod = mod;
-    nw = new_evt(src); VF_ASSUME(nw != NULL);
-#ifdef VF_TELL
-    _Bool tell = 1;
-#elif defined(VF_SRC)
-    _Bool tell = 0;
+#ifdef VF_CLASS
+    arrive(mod, 0, VF_CLASS);
 #else
-    _Bool tell = nondet_bool();
+    arrive(mod, 0, -1);
 #endif
-    if (tell) {                                       /* what process_ps does for a direct tell: the subscription is NULL */
-        m_mem_unref(nw->src);
-        nw->src = NULL;
-    }
-    _Bool internal = !tell && (f & M_SRC_INTERNAL);
+#if NARR > 1
+#ifdef VF_CLASS2
+    arrive(mod, 1, VF_CLASS2);
+#else
+    arrive(mod, 1, -1);
+#endif
+#endif
 
-    VF_PUSH_EVT(mod, nw);                             /* the loop hands its reference over */
-
-    size_t count = K + (internal ? 0 : 1);
-    _Bool trigger;
-    if (internal) trigger = which == 0 && K > 0;      /* batch timeout expired with events pending */
-    else if (!tell && (f & M_SRC_PRIO_HIGH)) trigger = 1;
-    else if (!tell && (f & M_SRC_PRIO_LOW)) trigger = 0;
-    else trigger = len != 0 ? count >= len : ns == 0; /* normal priority */
-
-    VF_CHECK(calls == (trigger ? 1 : 0), "handler invoked exactly when a trigger of the property holds (once)");
-    if (calls > 0) {
-        VF_CHECK(nseen == (int)count, "an invocation carries every accumulated event, none twice, no library timer tick");
-        for (int i = 0; i < KA; i++) if (i < nseen) VF_CHECK(seen[i] == i, "events are handed over in arrival order");
-        VF_CHECK(m_queue_len(mod->batch.events) == 0, "nothing stays behind after an invocation");
-    } else {
-        VF_CHECK(m_queue_len(mod->batch.events) == (ssize_t)count, "without an invocation the event is retained, none lost");
+    if (in_sync) {
+        for (int i = 0; i < NID; i++) if (i < nseen) VF_CHECK(seen[i] == expd[i], "events are handed over in arrival order, each once");
         int pos = 0, bad = 0;
         m_itr_foreach(mod->batch.events, {
             void *e = m_itr_get(m_itr);
-            if (pos < K ? e != (void *)pre[pos] : (pos > K || internal || e != (void *)nw)) bad++;
+            if (pos >= npend || e == NULL || e != ident[pend[pos < NID ? pos : 0]]) bad++;
             pos++;
         });
-        VF_CHECK(bad == 0 && pos == (int)count, "retained events keep their arrival order");
+        VF_CHECK(bad == 0 && pos == npend, "retained events keep their arrival order");
     }
     VF_WITNESS("end");
     return 0;
